@@ -107,6 +107,12 @@ impl RecvConn {
         // Only grow the buffer in steps. The size of the message is whatever the other side claims it to be,
         // memory should only be committed for bytes that actually arrive.
         const MAX_GROWTH: usize = 64 * 1024;
+        if max_buffer_size <= self.msg_buf_in.len() {
+            // The buffer already holds everything it may hold for the current message. A read with a zero
+            // sized buffer would return 0 bytes, which looks like a closed connection, and it would still
+            // receive the file descriptors that belong to the next message.
+            return Ok(());
+        }
         let max_buffer_size = usize::min(max_buffer_size, self.msg_buf_in.len() + MAX_GROWTH);
         self.msg_buf_in.reserve(max_buffer_size);
 
